@@ -37,11 +37,13 @@ type Report struct {
 
 // Solo computes what every op returns when it is the only call made on a fresh instance.
 func (s *Scenario) Solo() [][]string {
+	Baseline()
 	shape := s.Build(nil)
 	out := make([][]string, len(shape))
 	for i := range shape {
 		out[i] = make([]string, len(shape[i]))
 		for j := range shape[i] {
+			RestoreGlobals()
 			inst := s.Build(nil)
 			out[i][j] = safeRun(inst[i][j])
 		}
